@@ -152,7 +152,12 @@ Lemma fnames_cons n ft fs :
    end) ++ fnames (TRec fs).
 Proof. reflexivity. Qed.
 
-Lemma visible_cons n ft fs : visible (TRec ((n, ft) :: fs)) = visible ft && visible (TRec fs).
+Lemma find_hidden_cons p n ft fs :
+  find_hidden p (TRec ((n, ft) :: fs)) = find_hidden p ft || find_hidden p (TRec fs).
+Proof. reflexivity. Qed.
+
+Lemma find_hidden_arr p e :
+  find_hidden p (TArr e) = (match e with TRec _ => search_type p e | _ => false end) || find_hidden p e.
 Proof. reflexivity. Qed.
 
 (* ---------------------------------------------------------------- encodings nest *)
@@ -271,57 +276,131 @@ Proof.
   apply orb_true_iff. right. exact H.
 Qed.
 
-(* nothing below a type without records has a record type *)
-Lemma walk_no_rec : forall v t t' v',
-  has_rec t = false -> In (t', v') (walk t v) -> has_rec t' = false.
+(* findBelow: what the finder establishes about a type *)
+Definition find_below (p : bytes) (t : ty) : bool := search_type p t || find_hidden p t.
+
+(* [subty t' t]: the type t' occurs inside t *)
+Inductive subty : ty -> ty -> Prop :=
+| sub_refl t : subty t t
+| sub_field t n ft fs : In (n, ft) fs -> subty t ft -> subty t (TRec fs)
+| sub_elem t e : subty t e -> subty t (TArr e).
+
+Lemma subty_trans a b c : subty a b -> subty b c -> subty a c.
 Proof.
-  induction v as [| b | vs IH | vs IH] using val_ind'; intros t t' v' Hr H.
-  - destruct t; simpl in H; destruct H as [H|[]]; inversion H; subst; exact Hr.
-  - destruct t; simpl in H; destruct H as [H|[]]; inversion H; subst; exact Hr.
-  - destruct t as [id | fs | et]; try discriminate;
-      simpl in H; destruct H as [H|[]]; inversion H; subst; exact Hr.
-  - destruct t as [id | fs | et]; try discriminate.
-    + simpl in H; destruct H as [H|[]]; inversion H; subst; exact Hr.
-    + rewrite walk_arr in H. destruct H as [H|H]; [inversion H; subst; exact Hr|].
-      simpl in Hr.
+  intros H1 H2. induction H2.
+  - exact H1.
+  - eapply sub_field; eauto.
+  - apply sub_elem. auto.
+Qed.
+
+Lemma search_type_in term n ft : forall fs,
+  In (n, ft) fs -> search_type term ft = true -> search_type term (TRec fs) = true.
+Proof.
+  induction fs as [|[n' ft'] fs IH]; intros I S; [contradiction|].
+  destruct I as [I|I].
+  - inversion I; subst. apply search_type_field. exact S.
+  - apply search_type_tail. apply IH; assumption.
+Qed.
+
+Lemma find_hidden_in term n ft : forall fs,
+  In (n, ft) fs -> find_hidden term ft = true -> find_hidden term (TRec fs) = true.
+Proof.
+  induction fs as [|[n' ft'] fs IH]; intros I S; [contradiction|].
+  rewrite find_hidden_cons. destruct I as [I|I].
+  - inversion I; subst. rewrite S. reflexivity.
+  - rewrite (IH I S). apply orb_true_r.
+Qed.
+
+Lemma search_type_arr_elem p e :
+  search_type p e = true -> (match e with TRec _ => search_type p e | _ => false end) = true.
+Proof. destruct e; simpl; intros H; try discriminate; exact H. Qed.
+
+(* A field-name match on ANY type occurring inside t is found by the finder on
+   t: either among the dotted names (records nested directly in records) or by
+   findHidden (records below arrays). *)
+Lemma subty_find_below term t' t :
+  subty t' t -> search_type term t' = true -> find_below term t = true.
+Proof.
+  unfold find_below. intros H S. induction H.
+  - rewrite S. reflexivity.
+  - specialize (IHsubty S). apply orb_true_iff in IHsubty as [G|G].
+    + rewrite (search_type_in term n ft fs H G). reflexivity.
+    + rewrite (find_hidden_in term n ft fs H G). apply orb_true_r.
+  - specialize (IHsubty S). rewrite find_hidden_arr. apply orb_true_iff. right.
+    apply orb_true_iff in IHsubty as [G|G].
+    + rewrite (search_type_arr_elem _ _ G). reflexivity.
+    + rewrite G. apply orb_true_r.
+Qed.
+
+(* the evaluator's walk only reaches types occurring inside the root type *)
+Lemma walk_subty : forall v t t' v', In (t', v') (walk t v) -> subty t' t.
+Proof.
+  induction v as [| b | vs IH | vs IH] using val_ind'; intros t t' v' H.
+  - destruct t; simpl in H; destruct H as [H|[]]; inversion H; subst; apply sub_refl.
+  - destruct t; simpl in H; destruct H as [H|[]]; inversion H; subst; apply sub_refl.
+  - destruct t as [id | fs | et].
+    + simpl in H. destruct H as [H|[]]. inversion H; subst. apply sub_refl.
+    + rewrite walk_rec in H. destruct H as [H|H]; [inversion H; subst; apply sub_refl|].
+      assert (G : forall fs, In (t', v') (walk_fields fs vs) ->
+                             exists n ft, In (n, ft) fs /\ subty t' ft).
+      { clear H fs. induction IH as [|x vs Hx Hvs IHvs]; intros fs H.
+        - rewrite walk_fields_nil_r in H. contradiction.
+        - destruct fs as [|[n ft] fs]; [rewrite walk_fields_nil_l in H; contradiction|].
+          rewrite walk_fields_cons in H. apply in_app_or in H as [H|H].
+          + exists n, ft. split; [left; reflexivity|]. eapply Hx. exact H.
+          + destruct (IHvs _ H) as [n' [ft' [I' S']]]. exists n', ft'. split; [right; exact I'|exact S']. }
+      destruct (G _ H) as [n [ft [I S]]]. eapply sub_field; eauto.
+    + simpl in H. destruct H as [H|[]]. inversion H; subst. apply sub_refl.
+  - destruct t as [id | fs | et].
+    + simpl in H. destruct H as [H|[]]. inversion H; subst. apply sub_refl.
+    + simpl in H. destruct H as [H|[]]. inversion H; subst. apply sub_refl.
+    + rewrite walk_arr in H. destruct H as [H|H]; [inversion H; subst; apply sub_refl|].
+      apply sub_elem.
       induction IH as [|x vs Hx Hvs IHvs].
       * rewrite walk_elems_nil in H. contradiction.
       * rewrite walk_elems_cons in H. apply in_app_or in H as [H|H].
-        -- eapply Hx; [exact Hr|exact H].
+        -- eapply Hx. exact H.
         -- apply IHvs. exact H.
 Qed.
 
-Lemma has_rec_false_search term t : has_rec t = false -> search_type term t = false.
-Proof. intros H. apply search_type_nonrec. intros fs E. subst. discriminate. Qed.
-
-(* For a visible type, a field-name match on any type the evaluator's walk
-   reaches is also a match on the dotted names of the top-level type. *)
-Lemma walk_search_type term : forall v t t' v',
-  visible t = true -> In (t', v') (walk t v) ->
-  search_type term t' = true -> search_type term t = true.
+Lemma field_lookup_in_fs f : forall fs vs ft x,
+  field_lookup f fs vs = Some (ft, x) -> exists n, In (n, ft) fs.
 Proof.
-  induction v as [| b | vs IH | vs IH] using val_ind'; intros t t' v' Hv H S.
-  - destruct t; simpl in H; destruct H as [H|[]]; inversion H; subst; exact S.
-  - destruct t; simpl in H; destruct H as [H|[]]; inversion H; subst; exact S.
-  - destruct t as [id | fs | et].
-    + simpl in H. destruct H as [H|[]]. inversion H; subst. exact S.
-    + rewrite walk_rec in H. destruct H as [H|H]; [inversion H; subst; exact S|].
-      revert fs Hv H. induction IH as [|x vs Hx Hvs IHvs]; intros fs Hv H.
-      * rewrite walk_fields_nil_r in H. contradiction.
-      * destruct fs as [|[n ft] fs]; [rewrite walk_fields_nil_l in H; contradiction|].
-        rewrite visible_cons in Hv. apply andb_true_iff in Hv as [Hv1 Hv2].
-        rewrite walk_fields_cons in H. apply in_app_or in H as [H|H].
-        -- apply search_type_field. eapply Hx; eauto.
-        -- apply search_type_tail. apply IHvs; assumption.
-    + simpl in H. destruct H as [H|[]]. inversion H; subst. exact S.
-  - destruct t as [id | fs | et].
-    + simpl in H. destruct H as [H|[]]. inversion H; subst. exact S.
-    + simpl in H. destruct H as [H|[]]. inversion H; subst. exact S.
-    + simpl in Hv. apply negb_true_iff in Hv.
-      assert (R : has_rec t' = false).
-      { eapply walk_no_rec; [|exact H]. simpl. exact Hv. }
-      rewrite (has_rec_false_search term t' R) in S. discriminate.
+  induction fs as [|[n t] fs IH]; intros vs ft x H; simpl in H; [discriminate|].
+  destruct vs as [|y vs]; [discriminate|].
+  destruct (bytes_eqb n f).
+  - inversion H; subst. exists n. left. reflexivity.
+  - destruct (IH _ _ _ H) as [n' I]. exists n'. right. exact I.
 Qed.
+
+Lemma type_lookup_in_fs f : forall fs ft,
+  type_lookup f fs = Some ft -> exists n, In (n, ft) fs.
+Proof.
+  induction fs as [|[n t] fs IH]; intros ft H; simpl in H; [discriminate|].
+  destruct (bytes_eqb n f).
+  - inversion H; subst. exists n. left. reflexivity.
+  - destruct (IH _ H) as [n' I]. exists n'. right. exact I.
+Qed.
+
+(* a path only leads to types occurring inside the root type *)
+Lemma deref_subty : forall path t v t' v',
+  deref path t v = Some (t', v') -> subty t' t.
+Proof.
+  induction path as [|f path IH]; intros t v t' v' H; simpl in H.
+  - inversion H; subst. apply sub_refl.
+  - destruct t as [id | fs | et]; try discriminate.
+    destruct v as [| b | vs | vs]; try discriminate.
+    + destruct (type_lookup f fs) as [ft|] eqn:E; [|discriminate].
+      destruct (type_lookup_in_fs _ _ _ E) as [n I].
+      eapply sub_field; [exact I|]. eapply IH. exact H.
+    + destruct (field_lookup f fs vs) as [[ft x]|] eqn:E; [|discriminate].
+      destruct (field_lookup_in_fs _ _ _ _ _ E) as [n I].
+      eapply sub_field; [exact I|]. eapply IH. exact H.
+Qed.
+
+Lemma walk_find_below term v t t' v' :
+  In (t', v') (walk t v) -> search_type term t' = true -> find_below term t = true.
+Proof. intros W S. eapply subty_find_below; [eapply walk_subty; exact W|exact S]. Qed.
 
 (* ---------------------------------------------------------------- soundness *)
 
@@ -365,6 +444,11 @@ Proof.
   apply andb_true_iff in H as [_ H]. apply body_eqb_enc. exact H.
 Qed.
 
+Lemma in_eq_enc l t v : in_eq l t v = true -> enc_val v = lit_enc l.
+Proof.
+  unfold in_eq. destruct (N.eqb (lid l) ID_NET); [apply coerce_eq_enc|apply const_eq_enc].
+Qed.
+
 Lemma b3_T b : b3 b = T3 -> b = true.
 Proof. destruct b; [reflexivity|discriminate]. Qed.
 
@@ -393,8 +477,8 @@ Section Sound.
      satisfying [okf]) makes the compiled buffer filter sound. *)
   Variable F : bytes -> frame -> bool.
   Variable okf : frame -> Prop.
-  Hypothesis F_sound : forall term (fr : frame) id t v t' v',
-    okf fr -> In (id, t, v) fr -> In (t', v') (walk t v) ->
+  Hypothesis F_sound : forall term (fr : frame) id t v t',
+    okf fr -> In (id, t, v) fr -> subty t' t ->
     search_type term t' = true -> F term fr = true.
 
   Fixpoint bf_eval_with (b : bf) (fr : frame) : bool :=
@@ -412,25 +496,29 @@ Section Sound.
     (exists id t v, In (id, t, v) fr /\ eval e t v = true) ->
     bf_eval_with b fr = true.
   Proof.
-    induction e as [term | text l | path l | l path | a IHa c IHc | a IHa c IHc | a IHa | i];
+    induction e as [spath term | text l | path l | l path | a IHa c IHc | a IHa c IHc | a IHa | i];
       intros b fr C V [id [t [v [I E]]]]; simpl in C; unfold eval in E.
     - (* keyword search *)
       destruct (bf_string_case term) as [b1|] eqn:B; [|discriminate].
       apply bf_string_case_some in B. inversion C; subst. simpl.
-      simpl in E. apply is_T3_b3 in E.
-      assert (FN : forall t', (exists v', In (t', v') (walk t v)) ->
+      simpl in E.
+      destruct (deref spath t v) as [[t1 v1]|] eqn:D; [|discriminate].
+      apply is_T3_b3 in E.
+      assert (FN : forall t', subty t' t ->
                               search_type term t' = true -> F term fr = true).
-      { intros t' [v' W] S. eapply F_sound; eauto. }
+      { intros t' Sb S. eapply F_sound; eauto. }
+      pose proof (deref_subty _ _ _ _ _ D) as Sb1.
       apply orb_true_iff in E as [E|E].
-      + apply orb_true_iff. right. apply (FN t); [|exact E].
-        destruct (walk_head t v) as [r Hr]. exists v. rewrite Hr. left. reflexivity.
+      + apply orb_true_iff. right. apply (FN t1); assumption.
       + apply existsb_exists in E as [[t' v'] [W E]]. simpl in E.
         apply orb_true_iff in E as [E|E].
-        * apply orb_true_iff. right. apply (FN t'); [exists v'; exact W|exact E].
+        * apply orb_true_iff. right. apply (FN t'); [|exact E].
+          eapply subty_trans; [eapply walk_subty; exact W|exact Sb1].
         * apply orb_true_iff. left.
           destruct (string_leaf_seg term (t', v') E) as [m [S Cm]]. simpl in S.
           eapply contains_ci_mono; [|exact Cm].
           eapply seg_trans; [exact S|]. eapply seg_trans; [eapply walk_seg; exact W|].
+          eapply seg_trans; [eapply deref_seg; exact D|].
           eapply frame_seg; exact I.
     - (* search for a non-string literal *)
       destruct (N.eqb (lid l) ID_NET) eqn:Net; [discriminate|].
@@ -470,7 +558,7 @@ Section Sound.
       destruct (deref path t v) as [[t' v']|] eqn:D; [|discriminate].
       apply is_T3_b3 in E.
       apply existsb_exists in E as [[t'' v''] [W E]]. simpl in E.
-      apply coerce_eq_enc in E. apply contains_seg. rewrite <- E.
+      apply in_eq_enc in E. apply contains_seg. rewrite <- E.
       eapply seg_trans; [eapply walk_seg; exact W|].
       eapply seg_trans; [eapply deref_seg; exact D|]. eapply frame_seg; exact I.
     - (* and *)
@@ -502,36 +590,14 @@ End Sound.
 Lemma bf_eval_with_fnf b fr : bf_eval_with fnf_find b fr = bf_eval b fr.
 Proof. induction b; simpl; congruence. Qed.
 
-Lemma fnf_find_sound_visible : forall term (fr : frame) id t v t' v',
-  frame_visible fr -> In (id, t, v) fr -> In (t', v') (walk t v) ->
+Lemma fnf_find_sound : forall term (fr : frame) id t v t',
+  True -> In (id, t, v) fr -> subty t' t ->
   search_type term t' = true -> fnf_find term fr = true.
 Proof.
-  intros term fr id t v t' v' V I W S.
-  assert (Vt : visible t = true).
-  { unfold frame_visible in V. rewrite Forall_forall in V. apply (V (id, t, v)). exact I. }
+  intros term fr id t v t' _ I W S.
   unfold fnf_find. apply existsb_exists. exists (id, t, v).
   split; [exact I|]. destruct t as [pid | fs | et]; try reflexivity.
-  eapply walk_search_type; eauto.
-Qed.
-
-(* The proposed repair of FieldNameFinder.Find: also answer true when the record
-   type hides a record type below an array (which FieldNameIter cannot see). *)
-Definition fnf_find_fixed (p : bytes) (fr : frame) : bool :=
-  existsb (fun '(_, t, _) =>
-             match t with
-             | TRec _ => search_type p t || negb (visible t)
-             | _ => true
-             end) fr.
-
-Lemma fnf_find_fixed_sound : forall term (fr : frame) id t v t' v',
-  True -> In (id, t, v) fr -> In (t', v') (walk t v) ->
-  search_type term t' = true -> fnf_find_fixed term fr = true.
-Proof.
-  intros term fr id t v t' v' _ I W S.
-  unfold fnf_find_fixed. apply existsb_exists. exists (id, t, v).
-  split; [exact I|]. destruct t as [pid | fs | et]; try reflexivity.
-  destruct (visible (TRec fs)) eqn:Vt; [|apply orb_true_r].
-  apply orb_true_iff. left. eapply walk_search_type; eauto.
+  exact (subty_find_below term _ _ W S).
 Qed.
 
 Section Sound2.
@@ -539,26 +605,15 @@ Section Sound2.
   Variable lit_oth : expr -> ty -> val -> tv3.
   Notation eval := (eval oth lit_oth).
 
-  (* the buffer filter accepts every frame that holds a value the filter accepts,
-     provided the frame's record types hide no record type below an array *)
-  Theorem bufferfilter_sound_partial : forall e b (fr : frame),
+  (* CompileBufferFilter's contract: the buffer filter accepts every frame that
+     holds a value the filter accepts *)
+  Theorem bufferfilter_sound : forall e b (fr : frame),
     compile_bf e = Some b ->
-    frame_visible fr ->
     (exists id t v, In (id, t, v) fr /\ eval e t v = true) ->
     bf_eval b fr = true.
   Proof.
-    intros e b fr C V H. rewrite <- bf_eval_with_fnf.
-    eapply (generic_sound oth lit_oth fnf_find frame_visible fnf_find_sound_visible); eauto.
-  Qed.
-
-  (* with the repaired finder the statement holds at full strength *)
-  Theorem bufferfilter_sound_with_fix : forall e b (fr : frame),
-    compile_bf e = Some b ->
-    (exists id t v, In (id, t, v) fr /\ eval e t v = true) ->
-    bf_eval_with fnf_find_fixed b fr = true.
-  Proof.
-    intros e b fr C H.
-    eapply (generic_sound oth lit_oth fnf_find_fixed (fun _ => True) fnf_find_fixed_sound); eauto.
+    intros e b fr C H. rewrite <- bf_eval_with_fnf.
+    eapply (generic_sound oth lit_oth fnf_find (fun _ => True) fnf_find_sound); eauto.
   Qed.
 
   Lemma filter_none {A} (f : A -> bool) l : (forall x, In x l -> f x = false) -> filter f l = [].
@@ -568,15 +623,15 @@ Section Sound2.
   Qed.
 
   Lemma scan_frame_is_filter e fr :
-    frame_visible fr -> scan_frame oth lit_oth e fr = filter (keep oth lit_oth e) (frame_vals fr).
+    scan_frame oth lit_oth e fr = filter (keep oth lit_oth e) (frame_vals fr).
   Proof.
-    intros V. unfold scan_frame, gate.
+    unfold scan_frame, gate.
     destruct (compile_bf e) as [b|] eqn:C; [|reflexivity].
     destruct (bf_eval b fr) eqn:B; [reflexivity|].
     symmetry. apply filter_none. intros [t v] H.
     unfold frame_vals in H. apply in_map_iff in H as [[[id t'] v'] [Eq I]]. inversion Eq; subst.
     unfold keep. simpl. destruct (eval e t v) eqn:E; [|reflexivity].
-    rewrite (bufferfilter_sound_partial e b fr C V) in B; [discriminate|].
+    rewrite (bufferfilter_sound e b fr C) in B; [discriminate|].
     exists id, t, v. split; assumption.
   Qed.
 
@@ -589,65 +644,49 @@ Section Sound2.
 
   (* per-frame gate + per-value evaluator = the evaluator alone, for any split
      of the stream into frames *)
-  Theorem scan_is_filter_partial : forall e frs,
-    Forall frame_visible frs ->
+  Theorem scan_is_filter : forall e frs,
     scan oth lit_oth e frs = spec oth lit_oth e frs.
   Proof.
-    intros e frs V. unfold scan, spec. rewrite filter_flat_map.
-    induction V as [|fr frs Hf Hfs IH]; simpl; [reflexivity|].
-    rewrite scan_frame_is_filter by exact Hf. rewrite IH. reflexivity.
+    intros e frs. unfold scan, spec. rewrite filter_flat_map.
+    induction frs as [|fr frs IH]; simpl; [reflexivity|].
+    rewrite scan_frame_is_filter. rewrite IH. reflexivity.
   Qed.
 
-  (* a buffer filter never adds values, whatever the frames *)
-  Theorem scan_subset_spec : forall e frs x,
-    In x (scan oth lit_oth e frs) -> In x (spec oth lit_oth e frs).
+  (* the result does not depend on how the same values are cut into frames *)
+  Theorem scan_segmentation_independent : forall e frs1 frs2,
+    flat_map frame_vals frs1 = flat_map frame_vals frs2 ->
+    scan oth lit_oth e frs1 = scan oth lit_oth e frs2.
   Proof.
-    intros e frs x H. unfold scan in H. apply in_flat_map in H as [fr [Hfr Hx]].
-    unfold spec. apply filter_In. unfold scan_frame in Hx.
-    destruct (gate e fr); [|contradiction].
-    apply filter_In in Hx as [Hx Kx]. split; [|exact Kx].
-    apply in_flat_map. exists fr. split; assumption.
+    intros e frs1 frs2 H. repeat rewrite scan_is_filter. unfold spec. rewrite H. reflexivity.
   Qed.
 End Sound2.
 
-(* ---------------------------------------------------------------- the general statement is false *)
+(* ---------------------------------------------------------------- regression witnesses *)
 
 Definition cex_term : bytes := hex "666f6f".           (* foo *)
 Definition cex_type : ty := TRec [(hex "61", TArr (TRec [(hex "666f6f", TPrim 9)]))].
 Definition cex_val : val := VRec [VArr [VRec [VPrim (hex "02")]]].   (* {a:[{foo:1}]} *)
 Definition cex_frame : frame := [(32%N, cex_type, cex_val)].
 
-(* `search foo` over {a:[{foo:1}]}: the evaluator's walk reaches the record
-   type below the array and matches the field name; the field-name finder only
-   looks at the dotted names of the top-level type, so the frame is dropped. *)
-Theorem bufferfilter_refuted :
-  exists e b (fr : frame),
-    compile_bf e = Some b /\
-    (exists id t v, In (id, t, v) fr /\ forall oth lit_oth, eval oth lit_oth e t v = true) /\
-    bf_eval b fr = false.
-Proof.
-  exists (ESearchStr cex_term), (BOr (BStringCase cex_term) (BFieldName cex_term)), cex_frame.
-  split; [reflexivity|]. split.
-  - exists 32%N, cex_type, cex_val. split; [left; reflexivity|]. intros. vm_compute. reflexivity.
-  - vm_compute. reflexivity.
-Qed.
+(* `search foo` over {a:[{foo:1}]}: the evaluator's walk reaches the record type
+   below the array and matches the field name.  Before commit 8b4b6dcf4 the
+   finder only looked at the dotted names of the top-level type and the frame
+   was dropped; findHidden now finds it. *)
+Example former_counterexample_passes :
+  compile_bf (ESearchStr [] cex_term) = Some (BOr (BStringCase cex_term) (BFieldName cex_term)) /\
+  (forall oth lit_oth, eval oth lit_oth (ESearchStr [] cex_term) cex_type cex_val = true) /\
+  bf_eval (BOr (BStringCase cex_term) (BFieldName cex_term)) cex_frame = true /\
+  contains_ci (frame_bytes cex_frame) cex_term = false.
+Proof. repeat split; intros; vm_compute; reflexivity. Qed.
 
-Theorem scan_refuted :
-  exists e (frs : list frame), forall oth lit_oth,
-    scan oth lit_oth e frs <> spec oth lit_oth e frs.
-Proof.
-  exists (ESearchStr cex_term), [cex_frame]. intros oth lit_oth. vm_compute. discriminate.
-Qed.
-
-(* non-vacuity of the partial theorems: a visible frame, a filter with a buffer
-   filter, and a value it keeps *)
+(* non-vacuity: a frame, a filter with a buffer filter, a value it keeps, and a
+   frame the gate really drops *)
 Example sound_nonvacuous :
   let fr : frame := [(30%N, TRec [(hex "6e", TRec [(hex "666f6f", TPrim 25)])], VRec [VRec [VPrim (hex "626172")]])] in
-  compile_bf (EOr (ESearchStr cex_term) (EEq [hex "6e"; hex "666f6f"] {| lid := 25; lbody := Some (hex "626172") |})) <> None /\
-  frame_visible fr /\
-  scan (fun _ _ _ => F3) (fun _ _ _ => F3) (ESearchStr cex_term) [fr] = frame_vals fr.
+  let fr2 : frame := [(31%N, TRec [(hex "78", TPrim 25)], VRec [VPrim (hex "626172")])] in
+  compile_bf (EOr (ESearchStr [] cex_term) (EEq [hex "6e"; hex "666f6f"] {| lid := 25; lbody := Some (hex "626172") |})) <> None /\
+  gate (ESearchStr [] cex_term) fr2 = false /\
+  scan (fun _ _ _ => F3) (fun _ _ _ => F3) (ESearchStr [] cex_term) [fr; fr2] = frame_vals fr.
 Proof.
-  simpl. split; [discriminate|]. split.
-  - constructor; [reflexivity|constructor].
-  - vm_compute. reflexivity.
+  simpl. split; [discriminate|]. split; vm_compute; reflexivity.
 Qed.
